@@ -142,6 +142,45 @@ inline bool unambiguous(const Scenario& s) {
     return true;
 }
 
+// ---------------------------------------------------------------- the wider unambiguous class (verdict only)
+// Complete match of one actual call with one expectation, exactly as the property words it: same function, the
+// object the expectation names (if it names one), every passed parameter accepted, every declared parameter passed.
+inline bool call_matches(const Exp& e, const Act& a) {
+    if (e.fn != a.fn) return false;
+    if (e.obj && e.obj != a.obj) return false;
+    for (int k = 0; k < a.np; k++) { if (e.declares(a.pname[k]) ? e.value(a.pname[k]) != a.pval[k] : !e.ignoreOther) return false; }
+    for (int k = 0; k < e.np; k++) if (!a.passes(e.pname[k])) return false;
+    return true;
+}
+// No call of the alphabet completely matches two expectations of different classes.
+inline bool wide_unambiguous(const Scenario& s, const Alphabet& A) {
+    for (size_t i = 0; i < s.exps.size(); i++) for (size_t j = i + 1; j < s.exps.size(); j++) {
+        if (s.exps[i].fn != s.exps[j].fn || same_class(s.exps[i], s.exps[j])) continue;
+        for (auto& a : A.ao) if (call_matches(s.exps[i], a) && call_matches(s.exps[j], a)) return false;
+    }
+    return true;
+}
+// The property's multiset statement, evaluated directly (no step-by-step matching): PASS or a failure.
+inline bool multiset_verdict_pass(const Scenario& s) {
+    size_t nE = s.exps.size();
+    std::vector<int> cls(nE);                        // class representative = first expectation of the class
+    for (size_t i = 0; i < nE; i++) { cls[i] = (int)i; for (size_t j = 0; j < i; j++) if (same_class(s.exps[j], s.exps[i])) { cls[i] = cls[j]; break; } }
+    std::vector<int> want(nE, 0), got(nE, 0), seq;
+    for (size_t i = 0; i < nE; i++) want[cls[i]] += s.exps[i].count;
+    for (auto& a : s.acts) {
+        int m = -1; bool named = false;
+        for (size_t i = 0; i < nE; i++) { if (s.exps[i].fn == a.fn) named = true; if (m < 0 && call_matches(s.exps[i], a)) m = cls[i]; }
+        if (m < 0) { if (s.ignoreOtherCalls && !named) continue; return false; }
+        got[m]++; seq.push_back(m);
+    }
+    for (size_t i = 0; i < nE; i++) if (want[i] != got[i]) return false;
+    if (s.strict) {
+        std::vector<int> expanded; for (size_t i = 0; i < nE; i++) for (int k = 0; k < s.exps[i].count; k++) expanded.push_back(cls[i]);
+        if (expanded != seq) return false;
+    }
+    return true;
+}
+
 // ---------------------------------------------------------------- reference model (multiset semantics)
 struct Expected {
     int diag = PASS;
